@@ -51,6 +51,25 @@ Qed.
 Theorem ta_guard_accepted_horiz : guard_cfg_ok ta_guard_cfg = true -> forall m, ta_guard m <-> horiz m > 1 / 1000.
 Proof. intros H m. rewrite ta_guard_tied. apply guard_ok_horiz, H. Qed.
 
+(** ** the pitch component *)
+Theorem pitch_ok_meaning : forall c, pitch_ok c = true -> forall s t, comp_den s c t ->
+  exists n, t = TaAtan2 n (- ac s) (horiz s).
+Proof.
+  intros c H s t D. destruct c as [[y|y] [x|x] | q |]; try discriminate.
+  cbn [pitch_ok] in H. apply andb_prop in H as [H1 H2]. apply poly_eqb_eq in H1, H2. subst y x.
+  destruct t as [n y' x' | c']; cbn [comp_den] in D; [|contradiction]. destruct D as [D1 D2]. exists n. subst y' x'.
+  unfold horiz, neg_forz_poly, horiz_sq_poly; cbn [gexpr_den poly_den mono_den atom_den slot_of fst snd].
+  f_equal; [ring | f_equal; ring].
+Qed.
+(** The reified pitch components are the generated ones (both branches). *)
+Lemma ta_pitch_tied : forall s,
+  comp_den s ta_pitch_main_cfg (fst (fst (ta_main s))) /\ comp_den s ta_pitch_lock_cfg (fst (fst (ta_lock s))).
+Proof.
+  intro s. unfold ta_pitch_main_cfg, ta_pitch_lock_cfg, ta_main, ta_lock; cbn [fst snd comp_den].
+  unfold Q2R; cbn [gexpr_den Qnum Qden poly_den mono_den atom_den slot_of fst snd].
+  split; repeat split; first [ring | f_equal; ring | lra].
+Qed.
+
 (** ** aliasing in _mat_mul *)
 Lemma cons_eq : forall {A} (a b : A) l l', a = b -> l = l' -> a :: l = b :: l'.
 Proof. intros; subst; reflexivity. Qed.
